@@ -146,6 +146,21 @@ def _abbr(t):
     return f'{t[:6]}..({len(t)} digits)..{t[-4:]}'
 
 
+def bare_pyint_in_models():
+    """model files that call the unbounded grammar `pyInt` directly (every Python `int(str)` of request text must be
+    mirrored by `pyIntLim`): should be empty"""
+    import glob
+    import os
+    import re
+    out = []
+    for f in sorted(glob.glob(os.path.join(core.LEAN, 'OmbottModel', 'Model', '*.lean'))):
+        txt = re.sub(r'/-.*?-/', '', open(f, encoding='utf8').read(), flags=re.S)
+        txt = re.sub(r'--[^\n]*', '', txt)
+        if re.search(r'(?<![A-Za-z0-9_.])pyInt(?![A-Za-z0-9_])', txt):
+            out.append(os.path.basename(f))
+    return out
+
+
 def install_c17(cls):
     cls.tables = list(cls.tables) + ['pyint']
     cls.rule = cls.rule + (' || int() limit (intlimlib): numerals of LIMIT-1 / LIMIT / LIMIT+1 / 2*LIMIT digit characters '
@@ -159,6 +174,10 @@ def install_c17(cls):
 
     def corr(self, rng, n):
         out = o_corr(self, rng, n)
+        bare = bare_pyint_in_models()
+        self.stats['intlim-models-calling-unbounded-pyInt'] = len(bare)
+        if bare:
+            raise AssertionError('model files mirror int(str) with the unbounded `pyInt` instead of `pyIntLim`: %s' % bare)
         self._setup()
         try:
             gfr = self.ss.get_first_range
